@@ -10,6 +10,7 @@ import (
 	"strconv"
 	"strings"
 	"time"
+	"unicode/utf8"
 
 	"google.golang.org/grpc/grpclog"
 	"google.golang.org/protobuf/encoding/protojson"
@@ -34,6 +35,8 @@ func Bytes(val string) ([]byte, error) {
 	}
 	return b, nil
 }
+
+var errInvalidUTF8 = errors.New("string value contains invalid UTF-8")
 
 var valuesKeyRegexp = regexp.MustCompile(`^(.*)\[(.*)\]$`)
 
@@ -297,6 +300,10 @@ func parseField(fieldDescriptor protoreflect.FieldDescriptor, value string) (pro
 		}
 		return protoreflect.ValueOfFloat64(v), nil
 	case protoreflect.StringKind:
+		// proto3 strings must be valid UTF-8, otherwise marshaling the message for the target fails with an internal error.
+		if !utf8.ValidString(value) {
+			return protoreflect.Value{}, errInvalidUTF8
+		}
 		return protoreflect.ValueOfString(value), nil
 	case protoreflect.BytesKind:
 		v, err := Bytes(value)
@@ -369,6 +376,9 @@ func parseMessage(msgDescriptor protoreflect.MessageDescriptor, value string) (p
 		}
 		msg = wrapperspb.Bool(v)
 	case "google.protobuf.StringValue":
+		if !utf8.ValidString(value) {
+			return protoreflect.Value{}, errInvalidUTF8
+		}
 		msg = wrapperspb.String(value)
 	case "google.protobuf.BytesValue":
 		v, err := Bytes(value)
@@ -377,6 +387,9 @@ func parseMessage(msgDescriptor protoreflect.MessageDescriptor, value string) (p
 		}
 		msg = wrapperspb.Bytes(v)
 	case "google.protobuf.FieldMask":
+		if !utf8.ValidString(value) {
+			return protoreflect.Value{}, errInvalidUTF8
+		}
 		fm := &field_mask.FieldMask{}
 		fm.Paths = append(fm.Paths, strings.Split(value, ",")...)
 		msg = fm
